@@ -250,18 +250,8 @@ Section GenSorter.
   Variable o : numops.
   Notation indV := (C05_Nsga2.ind (V o)).
 
-  (* sortNondominated(individuals, k) as selNSGA2 calls it (first_front_only left at its default), through the
-     bridge of Model/C05_Full.v: the sorter sees (identity, weighted values), the result is read back as the
-     population's individuals with those identities *)
-  Definition gen_std_sorter : sorter o :=
-    fun pop k =>
-      match gen_sortNondominated o (pop4 pop) k false (fun _ => None) with
-      | Some (fs, _) => Some (map (back pop) fs)
-      | None => None
-      end.
-
   Lemma gen_std_sorter_refines (pop : list indV) (k : nat) fronts :
-    gen_std_sorter pop (Z.of_nat k) = Some fronts -> nd_fronts NdStandard pop k = Some fronts.
+    gen_std_sorter o pop (Z.of_nat k) = Some fronts -> nd_fronts NdStandard pop k = Some fronts.
   Proof.
     unfold gen_std_sorter, nd_fronts. intro H.
     destruct (gen_sortNondominated o (pop4 pop) (Z.of_nat k) false (fun _ => None)) as [[fs t']|] eqn:E; [|discriminate H].
